@@ -195,6 +195,7 @@ func (f *frame) freshResults(v *ssa.Call, reach string, nonNilErr bool) {
 
 func (f *frame) havocCall(v *ssa.Call, st *State, reach, why string) {
 	e := f.e
+	e.tick()
 	if e.havocs == nil {
 		e.havocs = map[string]bool{}
 	}
@@ -363,6 +364,31 @@ func (f *frame) stdCall(v *ssa.Call, name string, args []Val, st *State, reach s
 			parts = append(parts, fmt.Sprintf("((_ extract %d %d) %s)", i, i, args[0].term))
 		}
 		f.vals[v] = Val{term: e.define(v.Name(), fmt.Sprintf("(_ BitVec %d)", w), "(concat "+strings.Join(parts, " ")+")"), typ: v.Type()}
+		return true
+	case "unicode.IsLetter", "unicode.IsDigit":
+		// exact on ASCII (and on negative runes: false); unconstrained above 127
+		e.noteAssumed("exact for runes < 128, unconstrained otherwise: " + name)
+		r := args[0].term
+		b := e.declare("isclass", "Bool")
+		var lt128, exact string
+		if e.sc.arith == "int" {
+			lt128 = fmt.Sprintf("(< %s 128)", r)
+			if name == "unicode.IsLetter" {
+				exact = fmt.Sprintf("(or (and (<= 65 %s) (<= %s 90)) (and (<= 97 %s) (<= %s 122)))", r, r, r, r)
+			} else {
+				exact = fmt.Sprintf("(and (<= 48 %s) (<= %s 57))", r, r)
+			}
+		} else {
+			c := func(v int) string { return bvLit(uint64(v), 32) }
+			lt128 = fmt.Sprintf("(bvslt %s %s)", r, c(128))
+			if name == "unicode.IsLetter" {
+				exact = fmt.Sprintf("(or (and (bvsle %s %s) (bvsle %s %s)) (and (bvsle %s %s) (bvsle %s %s)))", c(65), r, r, c(90), c(97), r, r, c(122))
+			} else {
+				exact = fmt.Sprintf("(and (bvsle %s %s) (bvsle %s %s))", c(48), r, r, c(57))
+			}
+		}
+		e.assume(reach, fmt.Sprintf("(=> %s (= %s %s))", lt128, b, exact))
+		f.vals[v] = Val{term: b, typ: v.Type()}
 		return true
 	case "unicode/utf8.DecodeRuneInString", "unicode/utf8.DecodeRune":
 		// 0 < len ==> 1 <= size <= min(4, len); len == 0 ==> size == 0
@@ -564,6 +590,7 @@ func (f *frame) callByContract(v *ssa.Call, callee *ssa.Function, ctr *Contract,
 		o.Slow = r.Slow
 	}
 	pre := st.clone()
+	e.tick()
 	// frame: "p.f" entries havoc single fields of the cell p points to; "*p" a whole
 	// cell; "HA_x"/"H_x" entries a whole heap; "*" everything.
 	byParam := map[string][]string{}
@@ -577,9 +604,11 @@ func (f *frame) callByContract(v *ssa.Call, callee *ssa.Function, ctr *Contract,
 		case a == "*":
 			f.havocAll(st, reach, nil)
 		case strings.HasPrefix(a, "H_") || strings.HasPrefix(a, "HA_"):
-			if !e.knownHeap(a) {
+			ca, okc := e.canonHeap(a)
+			if !okc {
 				panic("assigns: unknown heap " + a)
 			}
+			a = ca
 			if _, ok := e.hsort[a]; ok {
 				old := e.heapByName(st, a)
 				st.heaps[a] = e.declare(a+"@call", e.hsort[a])
@@ -730,8 +759,7 @@ func (f *frame) doBuiltin(v *ssa.Call, b *ssa.Builtin, st *State, reach string) 
 		res := e.define(v.Name(), "Slice", fmt.Sprintf("(mk_slice %s %s %s %s)", rb, ro, newLen, rc))
 		h := e.heapTerm(st, elem, true)
 		hn, hs := e.heapName(elem, true)
-		e.allocN++
-		fresh := fmt.Sprintf("(+ alloc0 %d)", e.allocN)
+		fresh := e.nextLoc()
 		inPlace := e.idxLe(newLen, fmt.Sprintf("(s_cap %s)", s.term))
 		e.assume(reach, fmt.Sprintf("(ite %s (and (= %s (s_base %s)) (= %s (s_off %s)) (= %s (s_cap %s))) (and (= %s %s) (= %s %s) %s %s))",
 			inPlace, rb, s.term, ro, s.term, rc, s.term, rb, fresh, ro, e.idxLit(0), e.idxLe(newLen, rc), e.idxLe(rc, e.idxLit(maxLen))))
